@@ -30,6 +30,7 @@ class PivotInitialize(InitializeSparse):
     def __init__(self, params, label=None, opt_params=None):
 
         self._get_num_qubits(params)
+        self.num_data_qubits = self.num_qubits
 
         default_aux = False
         if opt_params is None:
@@ -42,14 +43,18 @@ class PivotInitialize(InitializeSparse):
 
         self.non_zero = len(params)
 
-        self.register = qiskit.QuantumRegister(self.num_qubits, name="q")
+        self.register = qiskit.QuantumRegister(self.num_data_qubits, name="q")
         self.index_differ = None
         self.ctrl_state = None
 
         if label is None:
             self.label = "PivotSP"
 
-        super().__init__("PivotInitialize", self.num_qubits, params.items(), label=label)
+        # with auxiliary qubits the definition puts ceil(log2(non_zero)) - 1 ancillas in front of the data register
+        num_anc = max(int(np.ceil(np.log2(self.non_zero))) - 1, 0) if self.aux else 0
+        super().__init__(
+            "PivotInitialize", self.num_data_qubits + num_anc, params.items(), label=label
+        )
 
     def _define(self):
         self.definition = self._define_initialize()
@@ -66,7 +71,7 @@ class PivotInitialize(InitializeSparse):
             pivot_circuit = qiskit.QuantumCircuit(self.register)
 
         next_state = self.params.copy()
-        index_nonzero = self._get_index_nz(self.num_qubits - target_size, next_state)
+        index_nonzero = self._get_index_nz(self.num_data_qubits - target_size, next_state)
         while index_nonzero is not None:
             index_zero = self._get_index_zero(self.non_zero, next_state)
             circ, next_state = self._pivoting(
@@ -74,7 +79,7 @@ class PivotInitialize(InitializeSparse):
             )
             pivot_circuit.compose(circ, pivot_circuit.qubits, inplace=True)
             index_nonzero = self._get_index_nz(
-                self.num_qubits - target_size, next_state
+                self.num_data_qubits - target_size, next_state
             )
 
         dense_state = np.zeros(2 ** target_size, dtype=complex)
@@ -100,7 +105,7 @@ class PivotInitialize(InitializeSparse):
             circuit.barrier()
             circuit.compose(pivot_circuit.reverse_bits().reverse_ops(), inplace=True)
         else:
-            circuit = qiskit.QuantumCircuit(self.num_qubits)
+            circuit = qiskit.QuantumCircuit(self.num_data_qubits)
             circuit.compose(initialize_circ, circuit.qubits[:target_size], inplace=True)
 
             circuit.compose(
@@ -110,7 +115,7 @@ class PivotInitialize(InitializeSparse):
         return circuit
 
     def _circuit_with_ancilla(self, target_size):
-        remain = list(range(self.num_qubits - target_size, self.num_qubits))
+        remain = list(range(self.num_data_qubits - target_size, self.num_data_qubits))
         n_anci = len(remain)
         anc = qiskit.QuantumRegister(n_anci - 1, name="anc")
         pivot_circuit = qiskit.QuantumCircuit(anc, self.register)
@@ -146,10 +151,10 @@ class PivotInitialize(InitializeSparse):
     def _pivoting(self, index_nonzero, target_size, index_zero, next_state):
         """pivot amplitudes of index_nonzero and self.index_zero"""
 
-        target = list(range(self.num_qubits - target_size))
-        remain = list(range(self.num_qubits - target_size, self.num_qubits))
+        target = list(range(self.num_data_qubits - target_size))
+        remain = list(range(self.num_data_qubits - target_size, self.num_data_qubits))
 
-        memory = qiskit.QuantumRegister(self.num_qubits)
+        memory = qiskit.QuantumRegister(self.num_data_qubits)
 
         anc, circuit = self._initialize_circuit(memory, remain)
 
@@ -221,7 +226,7 @@ class PivotInitialize(InitializeSparse):
     def _get_index_zero(self, non_zero, state):
         index_zero = None
         for k in range(2**non_zero):
-            index = f"{k:0{self.num_qubits}b}"
+            index = f"{k:0{self.num_data_qubits}b}"
 
             not_exists = sum(1 for v in state if v[0] == index) == 0
             if not_exists:
